@@ -18,7 +18,7 @@ CHECKS = {
          "Every swap of the history workload (both token programs, v1/v2, all limit classes) is judged on observed balance deltas and pool prices; a third of the successful swaps are re-executed on clones of the pre-state with the slippage threshold one below, at and one above the realised amount, and only the permitted ones may succeed, byte-identically.",
          SVM, "DESIGN.md#c03"),
  "C04": ("fault enumeration at the transaction boundary: instruction catalogue x authority-variant table executed on cloned state",
-         "Every privileged instruction (catalogue cross-checked against the program's `pub fn` list at run time) has a golden invocation that succeeds; then missing signature, foreign signer, one-bit-off keys, the authority of another config/pool/tier (alone and together with its own config / tier account), another position holder with their own token account, delegates with amount 0/1/2, empty token accounts, token accounts of other positions, delegate key without delegate signature, forged token accounts owned by non-token programs (random id and ids sharing a prefix / suffix with the token programs) are executed on clones; everything except the documented delegate-with-one-token must fail. The authority recorded at creation must be the designated one (not the rent payer). Hand-over: after each of the nine set-authority instructions has handed its role to a new key (and, for self-rotating roles, after the new holder has handed it on again), every setting instruction of the catalogue is re-run with the previous, the new and each former holder: a former holder is never accepted, the new holder is accepted for that role only, and no other role is disturbed.",
+         "Every privileged instruction (catalogue cross-checked against the program's `pub fn` list at run time) has a golden invocation that succeeds; then missing signature, foreign signer, one-bit-off keys, the authority of another config/pool/tier (alone and together with its own config / tier account), another position holder with their own token account, delegates with amount 0/1/2, empty token accounts, token accounts of other positions, delegate key without delegate signature, forged token accounts owned by non-token programs (random id and ids sharing a prefix / suffix with the token programs) are executed on clones; everything except the documented delegate-with-one-token must fail. The permission-less migration instruction, run unsigned on pools rewritten to the pre-migration layout, must leave every recorded authority as it was. The authority recorded at creation must be the designated one (not the rent payer). Hand-over: after each of the nine set-authority instructions has handed its role to a new key (and, for self-rotating roles, after the new holder has handed it on again), every setting instruction of the catalogue is re-run with the previous, the new and each former holder: a former holder is never accepted, the new holder is accepted for that role only, and no other role is disturbed.",
          SVM + "; the table of which slot is the authority is written in the harness from the property statement", "DESIGN.md#c04"),
  "C05": ("invariant monitor over decoded on-chain state after every instruction of hostile histories",
          "After every successful instruction of seeded histories the pool's liquidity, every tick's net/gross/initialized flag in every tick array (both encodings, harness-owned decoders) are recomputed from the Position accounts found by scanning the bank and compared; the workload includes Pinocchio repositions (also onto degenerate / inverted ranges, which must be refused), range resets, bundles and locks. Thorough adds the workload under an AddressSanitizer build.",
@@ -60,13 +60,13 @@ CHECKS = {
          "Every successful two-hop of the histories is replayed on a clone as two single swaps with the intermediate amount measured at the vaults: pools, tick arrays, oracles, vaults byte-identical, trader deltas identical, intermediate balance untouched; hostile two-hops must fail; outer thresholds probed at x-1/x/x+1.",
          SVM, "DESIGN.md#c17"),
  "C18": ("lifecycle rule monitor over decoded pre/post states of every lifecycle instruction in hostile histories; differential against the same state unfrozen for lock semantics",
-         "Open (all flavours, derived bounds), close, reset, reposition, lock, transfer-locked and bundle instructions are generated with valid and invalid parameters and judged by rules taken from the statement (token supply/authority, range validity and derived-bound resolution by an independent search, emptiness for close/reset, lock restrictions, bitmap == open bundled positions found in the bank).",
+         "Open (all flavours, derived bounds), close, reset, reposition, lock, transfer-locked and bundle instructions are generated with valid and invalid parameters and judged by rules taken from the statement (token supply/authority, range validity and derived-bound resolution by an independent search, emptiness for close/reset, lock restrictions, bitmap == open bundled positions found in the bank). Directed scenarios: one bundle filled to all 256 indexes; three rewards with every subset emitting, a position earns, is emptied, paid out and re-ranged (all checkpoints of a re-ranged position are zero).",
          SVM + "; Metaplex CPI of *_with_metadata is a recording stub", "DESIGN.md#c18"),
  "C19": ("invariant sweep over all decoded settings/pool/oracle accounts after every instruction of histories and a setter storm + enumerated mint-admission lattice on cloned state",
          "Bounds are re-stated independently and checked on every Config, FeeTier, AdaptiveFeeTier, Whirlpool and Oracle account in the bank after each successful instruction, under a storm of initialize/set instructions with hostile arguments; every subset (size <= 2 quick / 3 thorough) of 24 Token-2022 extension type numbers x freeze authority x five badge states is written with the harness's TLV writer and run through all three creation paths with the mint in either position; everything the statement's allow-list forbids must fail, also for a pool's own mint offered as reward after its badge was removed; accumulator maxima are drawn around 2^32 / group size.",
          SVM + "; spl-token-2022's TLV reader defines which extensions a (possibly truncated) mint carries; only rejection is judged", "DESIGN.md#c19"),
  "C20": ("differential execution: the Rust core SDK linked next to the program - exhaustive tick table, hostile function inputs, and SDK quotes against swaps actually executed in hostile histories",
-         "All 887273 ticks and every boundary price are compared; amount / next-price / liquidity-amount functions are compared on hostile inputs (values where the program succeeds, an SDK error where the program rejects as overflowing); every swap_v2 of the history workloads (static, adaptive incl. hour-long high-frequency bursts, transfer-fee pools) is re-judged without price limit on a clone and compared with swap_quote_by_input/output_token built from the decoded pre-state: amounts, total fee, failure behaviour and slippage side; every successful increase/decrease of the same histories is compared with increase/decrease_liquidity_quote (estimates equal what the owner paid / received, transfer fees included); the SDK's transfer-fee apply / reverse-apply are compared with the program's conversions on a real mint account up to u64::MAX.",
+         "All 887273 ticks and every boundary price are compared; amount / next-price / liquidity-amount functions are compared on hostile inputs (values where the program succeeds, an SDK error where the program rejects as overflowing); every swap_v2 of the history workloads (static, adaptive incl. hour-long high-frequency bursts, transfer-fee pools) is re-judged without price limit on a clone and compared with swap_quote_by_input/output_token built from the decoded pre-state (the arrays of the path plus zero to three arrays behind the price, up to six): amounts, total fee, failure behaviour and slippage side; every successful increase/decrease of the same histories is compared with increase/decrease_liquidity_quote (estimates equal what the owner paid / received, transfer fees included); the SDK's transfer-fee apply / reverse-apply are compared with the program's conversions on a real mint account up to u64::MAX.",
          SVM + "; `ethnum` is not available offline - the SDK is compiled against a stand-in U256 with the same std-integer semantics; the TypeScript/WASM packaging is out of reach", "DESIGN.md#c20"),
 }
 NOT_YET = "check under construction in this session (designed in DESIGN.md section 5); not claimed until it runs silent on the unchanged tree"
